@@ -244,12 +244,12 @@ pub fn get_storage_variables_assigned_in_constructor(
 
         for node in target_nodes {
             //Can unwrap since Target::FunctionDefinition inside a contract definition will always be a contract part
-            let contract_part = node.contract_part().unwrap();
+            let contract_part = node.clone().contract_part().unwrap();
 
             if let pt::ContractPart::FunctionDefinition(box_function_definition) = contract_part {
                 if let pt::FunctionTy::Constructor = box_function_definition.ty {
-                    let target_nodes =
-                        ast::extract_target_from_node(Target::Assign, source_unit.clone().into());
+                    //Only the assignments inside this constructor count as "assigned in the constructor"
+                    let target_nodes = ast::extract_target_from_node(Target::Assign, node.clone());
 
                     for node in target_nodes {
                         //Can unwrap since Target::Assign will always be an expression
